@@ -45,6 +45,7 @@ def run(idx: Index, rep: Report, tier: str):
     check_nested_control_replay(idx, rep)
     check_frequency_split(idx, rep)
     check_cirq_record_assembly(idx, rep)
+    check_collapse_numeric(idx, rep)
 
 
 def check_simulate_forwarding(idx: Index, rep: Report):
@@ -499,3 +500,57 @@ def check_nested_control_replay(idx: Index, rep: Report):
                         "(its tail right after its own nested measurements, before anything that follows the control)",
                    reason=f"{len(bad)} outcome string(s) replay differently, e.g. outcomes {bad[0][0]}: {bad[0][1]}" if bad else "")
     rep.floor("nested-control replays folded", n, 300)
+
+
+def check_collapse_numeric(idx: Index, rep: Report):
+    """collapse_statevector_to_desired_measurement folded on concrete amplitude vectors (numpy evaluates the reshape / slice / norm primitives): for every qubit,
+    outcome and bit order the result is the projection of the vector on that outcome, normalised, and the probability returned is the squared norm of the
+    projection - also for outcomes as unlikely as 1e-15 or 1e-20, which double precision represents without difficulty; an outcome of probability exactly zero is
+    refused (or reported with probability 0 when asked to ignore it)."""
+    import math
+    import numpy as np
+    from ..consteval import Raised, Undecidable
+    from ..rules import circuitsem as cs
+    rule = "K9.collapse-values"
+    f = idx.function(f"{BACKEND}::collapse_statevector_to_desired_measurement")
+
+    def fold(vec, qubit, result, order, ignore=False):
+        fo = cs.make_folder(idx, BACKEND)
+        fo.real_arrays = True
+        return fo.run_function(f.node, {"statevector": np.array(vec, dtype=complex), "qubit": qubit, "result": result, "order": order, "ignore_zero_prob": ignore})
+    vectors = [[0.6, 0.8j], [0.5, -0.5, 0.5j, 0.5], [1 / math.sqrt(2), 0, 0, 1j / math.sqrt(2)], [0.1 * (k + 1) * (1j ** k) for k in range(8)],
+               [math.sqrt(1 - 2.5e-15), math.sqrt(2.5e-15)], [math.sqrt(1 - 1e-20), 0, 0, 1e-10j]]
+    bad = []
+    n = 0
+    for vec in vectors:
+        v = np.array(vec, dtype=complex)
+        v = v / np.linalg.norm(v)
+        nq = int(round(math.log2(len(v))))
+        for order in ("lsq_first", "msq_first"):
+            for q in range(nq):
+                for res in (0, 1):
+                    bit = [(i >> (nq - 1 - q if order == "lsq_first" else q)) & 1 for i in range(len(v))]
+                    proj = np.array([a if b == res else 0 for a, b in zip(v, bit)])
+                    p = float(np.sum(np.abs(proj) ** 2))
+                    label = f"{len(v)} amplitudes, qubit {q} -> {res}, {order}, probability {p:.3g}"
+                    try:
+                        got = fold(v, q, res, order)
+                    except Undecidable as e:
+                        raise AnalysisError(f"collapse_statevector_to_desired_measurement not foldable: {e}")
+                    except Raised as e:
+                        n += 1
+                        if p > 1e-27:
+                            bad.append(f"{label}: refused ({e.exc_type}) although the outcome is possible")
+                        continue
+                    n += 1
+                    if p == 0:
+                        bad.append(f"{label}: accepted although the outcome is impossible")
+                        continue
+                    sv, prob = got
+                    if abs(float(prob) - p) > 1e-9 * max(p, 1e-300) + 1e-30 or float(np.max(np.abs(np.array(sv) - proj / math.sqrt(p)))) > 1e-9:
+                        bad.append(f"{label}: returns probability {float(prob):.3g} and a state of norm {float(np.linalg.norm(sv)):.6g}")
+    rep.decide(not bad, rule, f, f.node, text=f"collapse on {n} (vector, qubit, outcome, order) cases, branch probabilities down to 1e-20",
+               what="the collapsed state is the normalised projection on the requested outcome and the probability returned is the squared norm of the projection, for every "
+                    "outcome of non-zero probability; impossible outcomes are refused",
+               reason="; ".join(bad[:3]))
+    rep.floor("collapse cases folded", n, 40)
